@@ -27,6 +27,7 @@ func checkC01(w *World, r *Report) {
 	r.Explanation = "Decides the ownership clauses of C01 for every history: (R01.1) no call path from a render root that does not enter the parser reaches a sync.Pool.Put into a pool of parse-tree objects, and (R01.2) no such function stores into a field of a Node implementation or of Template — so a render can never consume, alter or recycle the cached template it used; (R01.3) every field of every pooled struct that is read anywhere is definitely (re)assigned on all paths of every acquiring function or definitely zeroed before every Put, so a recycled object is indistinguishable from a fresh one whatever the previous owner left in it; (R01.4) in Parser.Parse the token slice borrowed from the pooled tokenizer is never used after the tokenizer's release and never handed to a second pool. (R01.5) no use of an object after it was released to a pool, through helpers and parameters; (R01.6) package-level tables written outside init store only functions of their key; (R01.7) no string/slice header over live buffer memory. Not decided: byte equality of output with a pristine process (no oracle is run); garbage-collector interaction. (R01.8) a package-level map or slice is never stored into a field or returned, so no two engines/policies alias one process-wide container."
 	r.Explanation += " Rules added in later rounds: (R01.9) no parse-tree object reachable from a registered Template is released; (R01.3, library buffers) a pooled bytes.Buffer/strings.Builder is reset before first use at every Get, or reset and untouched on every path to every Put. (R01.10) no process-wide scalar written on parse/render paths reaches a result or decides a return. (R01.5) nothing a function returns aliases what its deferred release puts back into a pool."
 	r.Explanation += " Round 9: (R01.2) sync/atomic writes into tree fields count as writes; (R01.11) the identity fields of a *Template parameter are written only while the template is built."
+	r.Explanation += " Round 10: (R01.12) containers of a pool that become template values are never recycled."
 	r.RuleText = "obligation = (pool, Put site) for R01.1, (function, store) for R01.2, (pool, field) for R01.3, (function, borrowed value) for R01.4; non-trivial = needed call-graph reachability or a must-assign dataflow"
 	r.Trusted = []string{"call graph over-approximates calls (sound for 'never reaches')", "unsafe container-of in ReleaseTokenizer is summarised as 'releases its argument'"}
 	r.Assumptions = []string{"user callbacks do not call the package's exported Release*/pool functions on engine-owned objects"}
